@@ -837,11 +837,12 @@ func (check typecheck) conversion(n *node, typ *itype) error {
 		case representableConst(c, t):
 			ok = true
 		case isInt(n.typ.TypeOf()) && isString(t):
-			codepoint := int64(-1)
-			if i, ok := constant.Int64Val(c); ok {
-				codepoint = i
+			codepoint := rune(-1)
+			if i, ok := constant.Int64Val(c); ok && i == int64(rune(i)) {
+				// A value which is not a rune is not a valid code point.
+				codepoint = rune(i)
 			}
-			n.rval = reflect.ValueOf(constant.MakeString(string(rune(codepoint))))
+			n.rval = reflect.ValueOf(constant.MakeString(string(codepoint)))
 			ok = true
 		}
 
